@@ -44,7 +44,7 @@ P = {
             "Tie to the code: the model's answer is compared with the implementation's on files with 0–3 injected violations of 28 kinds (incl. cross-namespace names), and Truthful/WellFormed are also evaluated by an independent Python oracle on the implementation's answers.",
             "§7 C10", "Ok⇔WellFormed + Err⇒Truthful theorems; model=impl on injected violations"),
     "C11": ("proof", "Theorems: a conflict report names a state of the automaton, two items of that state, and they demand different parser actions on the same lookahead column (C11_payload; every grammar, every automaton); for every validated file the attached automaton — the machine validated_ast_to_machine built, conflicts or not — has exactly the item sets (lookaheads included) generated by the LALR(1) propagation rules over its transition graph w.r.t. a closed and sound FIRST map, one state per core, functional transitions (C11_attached_automaton, from the generator invariants). "
-            It is the canonical LR(1) collection merged by core (C17_is_lalr1). "
+            "It is the canonical LR(1) collection merged by core (C17_is_lalr1). "
             "Partial: 'attached file = validated input' and, independently, the isomorphism with a separately written LALR(1) construction are checked on every conflicting grammar of the run against the independent LALR(1) construction and the model.",
             "§6.2, §7 C11", "conflict-payload theorem + exact attached automaton + LALR(1) isomorphism oracle"),
     "C12": ("proof", "Theorems: the attribute token is exactly the source slice the scanner specification delimits with a bracket stack (via C08_tokenize_eq_spec); every emitted type item carries exactly its declaration's attribute texts, in order (C12_emit); render prints them one per line directly before the item. "
